@@ -157,6 +157,25 @@ def run_biglat(concepts, case, spec):
                 if got is RAISED or bool(got) != want:
                     COL.violation(pname, f'{pname}:truthiness-differs-from-extent-predicate', want,
                                   None if got is RAISED else bool(got), {'x': repr(x)[:120], 'y': repr(y)[:120], 'biglat': case['fam']})
+    # a large uniform sample of ordered pairs for the four order predicates (rare index coincidences)
+    masks = {}
+    for _ in range(60000):
+        a, b = rng.randrange(n), rng.randrange(n)
+        x, y = members[a], members[b]
+        ex = masks.get(a)
+        if ex is None:
+            ex = masks[a] = sh.omask(x.extent)
+        ey = masks.get(b)
+        if ey is None:
+            ey = masks[b] = sh.omask(y.extent)
+        for pname in ORDER:
+            want = bool(PREDICATES[pname](ex, ey, 0, 0, sh.ALLO))
+            got = getattr(x, pname)(y)
+            COL.counters['judged_' + pname] += 1
+            COL.counters['judged_biglat_pairs'] += 1
+            if bool(got) != want:
+                COL.violation(pname, f'{pname}:truthiness-differs-from-extent-predicate', want, bool(got),
+                              {'x_index': a, 'y_index': b, 'biglat': case['fam']})
 
 
 def cases(tier, seed, spec):
